@@ -194,6 +194,20 @@ def run(ctx, chk):
                         flavour, enc.sp(), nontrivial=T != "u8")
             # width: decode consumes exactly size_of::<T>() bytes (remainder = &data[size..])
     chk.floor("integral codec pairs", n_pairs, 10)
+    text(chk, crates)
+    tags(chk, crates)
+    sentinel(chk, crates)
+
+
+STR_ALTERING = ("trim", "trim_start", "trim_end", "trim_matches", "trim_start_matches", "trim_end_matches", "trim_left", "trim_right",
+                "trim_left_matches", "trim_right_matches", "strip_prefix", "strip_suffix", "replace", "replacen", "to_uppercase",
+                "to_lowercase", "to_ascii_uppercase", "to_ascii_lowercase", "split_at", "split_once", "rsplit_once", "truncate", "pop",
+                "remove", "retain", "drain", "repeat", "chars", "char_indices", "bytes", "split", "rsplit", "lines", "get", "get_unchecked")
+
+
+def text(chk, crates):
+    """(e) text codecs: inverse primitive pair, the CP437 code page on both sides, and a decoder that removes nothing but
+    trailing NUL padding (the one exclusion the round-trip domain makes: "text ending in NUL")."""
     for E, T, es, ds, what in (("zvt_builder::encoding::Hex", "alloc::string::String", "hex::FromHex>::from_hex", "hex::ToHex>::encode_hex", "hex"),
                                ("zvt_builder::encoding::Default", "alloc::string::String", "CP437::encode", "CP437::decode", "cp437")):
         enc, dec = find(crates, E, T)
@@ -204,8 +218,33 @@ def run(ctx, chk):
         dc = {callee_res(t) for _, t in dec.calls()}
         chk.require(any(es in x for x in ec) and any(ds in x for x in dc), "C17-e/text-pairing", inst,
                     "%s text codec does not use the inverse pair %s / %s" % (what, es, ds), what, enc.sp())
-    tags(chk, crates)
-    sentinel(chk, crates)
+        if what != "cp437":
+            continue
+        # one code page, the specified one, in both directions
+        pages = sorted({x.split("yore::code_pages::")[1].split("::")[0] for x in ec | dc if "yore::code_pages::" in x})
+        chk.require(pages == ["cp437"], "C17-e/text-codepage", inst,
+                    "text is converted with code page(s) %s; ZVT text is CP437 (the same bytes mean other characters elsewhere)" % pages,
+                    "cp437 only", enc.sp())
+        # the decoder hands back the decoded text, minus trailing NULs only
+        vx = VEx(dec)
+        bad = []
+        for bb, t_ in dec.calls():
+            n = callee(t_)
+            m = n.rsplit("::", 1)[-1]
+            if not (n.startswith(("core::str::<impl str>::", "alloc::str::<impl str>::", "alloc::string::String::")) and m in STR_ALTERING):
+                continue
+            if m == "trim_end_matches" and len(t_["args"]) == 2:
+                pat = vx.operand(t_["args"][1], bb)
+                while pat[0] == "cast":
+                    pat = pat[1]
+                if pat == ("const", 0):
+                    continue
+                bad.append("trim_end_matches(%s)" % show(pat)[:30])
+            else:
+                bad.append(m)
+        chk.require(not bad, "C17-e/text-trim", inst,
+                    "the text decoder alters the decoded text by %s: only trailing NUL padding may be removed (a value with such "
+                    "characters elsewhere would not come back)" % bad, "trim_end_matches('\\0') only", dec.sp())
 
 
 def tags(chk, crates):
